@@ -17,11 +17,14 @@ MANIFEST = {
     "note": "Trusted: Coq kernel + vm_compute, no axioms; harness/tccrun and this driver's case printer; gomonkey patches of "
             "SendSyncRequest / SendAsyncResponse. JSON is modelled at tree level (text syntax is exercised only through the "
             "real encoding/json in the tie).",
-    "technique": "Coq proof (structural induction over a JSON/Go value model, event model) + differential correspondence (vm_compute) + direct oracle on the real code",
+    "technique": "Coq proof (structural induction over a JSON/Go value model, event model over a dispatch/status table REGENERATED from the source) + differential correspondence (vm_compute) + direct oracle on the real code",
 }
+TABLES = [("tcc", "TccTable.v")]
 PROP_FILE = "Props/P_C05.v"
 REQUIRES = "From SeataV Require Import Props.P_C05."
 TRUSTED = vlib.TRUSTED_COMMON + [
+    "tools/xlate tcc (go/ast + exact statement patterns over BranchCommit/BranchRollback and the two processors; "
+    "anything else -> None, rejected by C05_table_recognised)",
     "harness/tccrun (user services, reflection-based description of parameter values, gomonkey recorders for "
     "GettyRemotingClient.SendSyncRequest / SendAsyncResponse) and lib/checks/c05.py case printer",
     "tree-level JSON model: the textual layer of encoding/json is not modelled (exercised by the tie only)",
@@ -212,10 +215,13 @@ def slim(c):
 
 
 def run(chk, replay_case=None):
+    # (B1) which user method each direction calls, the status of every outcome, the processors' silence rule and
+    # result codes are regenerated from the working tree; the theorems are re-checked on that table
+    vlib.run_xlate("tcc", "TccTable.v")
     pr = vlib.proof_step(chk, PROP_FILE, REQUIRES)
     ok_cases, out_cases = vlib.coq_make(["Tcc/TccCases.vo"])
     if not ok_cases:
-        raise vlib.Broken("Tcc/TccCases.v does not compile:\n" + out_cases[-1500:])
+        raise vlib.TieBroken("the model does not type-check on the regenerated tcc table:\n" + out_cases[-1500:])
     n = 250 if chk.tier == "quick" else 40000
     data, secs = vlib.run_harness("tcc", chk.tmp("tcc.json"), timeout=3000, seed=chk.seed, n=n, repo=vlib.REPO)
     if data.get("setup"):
@@ -265,7 +271,10 @@ def run(chk, replay_case=None):
             {"case": slim(c), "kind": k, "correspondence": "Tcc/TccCases.v check_case",
              "model_disagreements": [CODES[e] for e in mism.get(i, [])], "mismatching_cases": len(corr_fail)}, real)
     if not pr["ok"] and not chk.violations:
-        chk.violation("proof obligation of C05 no longer checks", {"theorem": "Props/P_C05.v", "coq_output": pr["out"][-1500:]}, False)
+        chk.violation("proof obligation of C05 no longer checks on the table regenerated from tcc_resource.go / the processors",
+                      {"theorem": "Props/P_C05.v (C05_table_recognised)",
+                       "regenerated_table": open(os.path.join(vlib.COQ, "Gen", "TccTable.v")).read()[-2000:],
+                       "coq_output": pr["out"][-1500:]}, False)
 
     def nontrivial(k, c):
         if k == "p":
